@@ -79,6 +79,56 @@ fn handle(req: &Value) -> Value {
             }
             json!({"outs": outs})
         }
+        "regalloc" => {
+            // build a pre-state by a history of public operations, then apply one operation
+            let mut b = tsrun::compiler::BytecodeBuilder::new();
+            let regs = b.registers();
+            if let Some(h) = req["history"].as_array() {
+                for step in h {
+                    let name = step[0].as_str().unwrap_or("");
+                    let arg = step[1].as_u64().unwrap_or(0) as u8;
+                    match name {
+                        "alloc" => { let _ = regs.alloc(); }
+                        "free" => regs.free(arg),
+                        "reserve" => { let _ = regs.reserve_range(arg); }
+                        "save" => regs.save(),
+                        "restore" => regs.restore(),
+                        _ => {}
+                    }
+                }
+            }
+            let pre = json!({"next": regs.current(), "max_used": regs.max_used()});
+            let arg = req["arg"].as_u64().unwrap_or(0) as u8;
+            let res = match req["op"].as_str().unwrap_or("") {
+                "alloc" => match regs.alloc() { Ok(r) => json!({"ok": r}), Err(e) => json!({"err": format!("{}", e)}) },
+                "free" => { regs.free(arg); json!({}) }
+                "reserve_range" => match regs.reserve_range(arg) { Ok(r) => json!({"ok": r}), Err(e) => json!({"err": format!("{}", e)}) },
+                "save" => { regs.save(); json!({}) }
+                "restore" => { regs.restore(); json!({}) }
+                _ => json!({"error": "unknown op"}),
+            };
+            // observe the post-state through further allocations
+            let post = json!({"next": regs.current(), "max_used": regs.max_used()});
+            let mut following = Vec::new();
+            for _ in 0..4 {
+                match regs.alloc() { Ok(r) => following.push(json!(r)), Err(_) => following.push(json!("err")) }
+            }
+            json!({"pre": pre, "result": res, "post": post, "next_allocs": following})
+        }
+        "add_constants" => {
+            let mut b = tsrun::compiler::BytecodeBuilder::new();
+            let n = req["count"].as_u64().unwrap_or(0);
+            let mut last_ok: Option<u16> = None;
+            let mut first_err: Option<u64> = None;
+            let mut mismatch: Option<u64> = None;
+            for i in 0..n {
+                match b.add_constant(tsrun::compiler::Constant::Number(i as f64)) {
+                    Ok(idx) => { if idx as u64 != i && mismatch.is_none() { mismatch = Some(i); } last_ok = Some(idx); }
+                    Err(_) => { if first_err.is_none() { first_err = Some(i); } }
+                }
+            }
+            json!({"last_ok": last_ok, "first_err_at": first_err, "first_index_mismatch_at": mismatch})
+        }
         "number_to_string" => {
             let bits = u64::from_str_radix(req["bits"].as_str().unwrap_or("0"), 16).unwrap_or(0);
             json!({"out": tsrun::value::number_to_string(f64::from_bits(bits)).to_string()})
